@@ -97,7 +97,7 @@ class State:
             return vtuple([self._read("%s#%d" % (key, i), a, idx) for i, a in enumerate(ty.args)])
         if ty.kind == "none":
             return vnone()
-        return V(ty, z3.Select(self.arr(key, sort_of(ty)), idx))
+        return V(ty, z3.simplify(z3.Select(self.arr(key, sort_of(ty)), idx)))
 
     def _write(self, key, ty: Ty, idx, val: V):
         val = coerce(val, ty)
@@ -123,7 +123,7 @@ class State:
 
     def list_get(self, lst: V):
         elem = elem_ty(lst.ty)
-        return V(SEQ(elem), z3.Select(self.arr(self.list_key(elem), z3.SeqSort(sort_of(elem))), lst.t))
+        return V(SEQ(elem), z3.simplify(z3.Select(self.arr(self.list_key(elem), z3.SeqSort(sort_of(elem))), lst.t)))
 
     def list_set(self, lst: V, seqterm):
         elem = elem_ty(lst.ty)
@@ -139,8 +139,8 @@ class State:
 
     def dict_get(self, d: V):
         kk, vk, kt, vt = self.dict_keys(d)
-        dom = z3.Select(self.arr(kk, z3.ArraySort(sort_of(kt), z3.BoolSort())), d.t)
-        val = z3.Select(self.arr(vk, z3.ArraySort(sort_of(kt), sort_of(vt))), d.t)
+        dom = z3.simplify(z3.Select(self.arr(kk, z3.ArraySort(sort_of(kt), z3.BoolSort())), d.t))
+        val = z3.simplify(z3.Select(self.arr(vk, z3.ArraySort(sort_of(kt), sort_of(vt))), d.t))
         return dom, val
 
     def dict_set(self, d: V, dom, val):
